@@ -320,11 +320,14 @@ pub fn checks() -> Vec<Box<dyn Check>> {
 }
 
 pub fn run(ctx: &Ctx) -> i32 {
-    let parts = vec![
+    let mut parts = vec![
         crate::corpus_part(ctx, &checks()),
         run_pbt(ctx, &Histories, ctx.n(24_000, 400_000)),
         run_pbt(ctx, &ModelEdits, ctx.n(16_000, 300_000)),
     ];
+    if ctx.thorough() {
+        parts.push(fuzz_part(ctx, "c01_histories", &Histories, 250_000, 2500));
+    }
     finish(
         ctx,
         parts,
